@@ -1,12 +1,13 @@
 package hashrate
 
 import (
+	"math"
 	"sync/atomic"
 	"time"
 )
 
 type Mean struct {
-	totalWork       *atomic.Uint64
+	totalWork       *atomic.Uint64 // bits of the float64 sum of submitted work: difficulties may be fractional
 	firstSubmitTime *atomic.Int64 // stores first submit time in unix seconds
 	lastSubmitTime  *atomic.Int64 // stores last submit time in unix seconds
 	totalShares     *atomic.Uint32
@@ -34,7 +35,12 @@ func (h *Mean) Reset() {
 }
 
 func (h *Mean) Add(diff float64) {
-	h.totalWork.Add(uint64(diff))
+	for {
+		old := h.totalWork.Load()
+		if h.totalWork.CompareAndSwap(old, math.Float64bits(math.Float64frombits(old)+diff)) {
+			break
+		}
+	}
 	h.totalShares.Add(1)
 
 	now := time.Now()
@@ -43,7 +49,7 @@ func (h *Mean) Add(diff float64) {
 }
 
 func (h *Mean) Value() float64 {
-	return float64(h.totalWork.Load())
+	return math.Float64frombits(h.totalWork.Load())
 }
 
 func (h *Mean) ValuePer(t time.Duration) float64 {
@@ -51,7 +57,7 @@ func (h *Mean) ValuePer(t time.Duration) float64 {
 	if totalDuration == 0 {
 		return 0
 	}
-	return float64(h.GetTotalWork()) / float64(totalDuration/t)
+	return h.Value() / float64(totalDuration/t)
 }
 
 func (h *Mean) GetLastSubmitTime() time.Time {
@@ -63,7 +69,7 @@ func (h *Mean) GetLastSubmitTime() time.Time {
 }
 
 func (h *Mean) GetTotalWork() uint64 {
-	return h.totalWork.Load()
+	return uint64(h.Value())
 }
 
 func (h *Mean) GetTotalShares() uint32 {
